@@ -606,7 +606,8 @@ class Machine:
                 return Agg(dest_head, last, vals)
             if last in self.adts.structs:
                 return Agg(last, None, vals, tuple(self.adts.structs[last]))
-            raise EncoderGap('unknown tuple adt %s' % path)
+            # tuple struct of a foreign crate (e.g. std::cmp::Reverse): keep it as a plain aggregate
+            return Agg(last, None, vals)
         # unit
         if prev in self.adts.enums and any(v[0] == last for v in self.adts.enums[prev]):
             return self.make_variant(prev, last, ())
